@@ -13,6 +13,7 @@
    Not proved here (decided by the harness monitors on the implementation): the drop count of payload values
    ("dropped exactly once") and set's Err(value) hand-back as a theorem; blocking forms and thread interleavings. *)
 From AL Require Import Base Api OnceApi OnceInv.
+From AL Require OnceDrops.
 From AL.Tie Require Tie_OnceCell.
 From AL.Sched Require OnceSched OnceOrd.
 
@@ -65,8 +66,30 @@ Example C04_nonvacuous :
   = [RUnit; RUnit; RPending; RPending; RUnit; RErr 7; RUnit; RVal 5; RUnit; RErr 9; RVal 5].
 Proof. vm_compute. reflexivity. Qed.
 
+(* ---------- the stored value is dropped exactly once ---------- *)
+(* For every history: a payload comes into existence as the argument of a `set` future or as the value a get_or_init /
+   get_or_try_init closure produced and that got stored ([made], read off the steps); it is owned by the initialised cell or
+   by a `set` future that has not finished ([owed]); the model counts every drop ([o_drops]: the value handed back by a `set`
+   that did not initialise, the argument of a cancelled `set`, `take`, the drop of an initialised cell — compared with the
+   implementation's drop counter on every operation of the correspondence run). Drops so far + payloads owned now = payloads
+   made so far: nothing is dropped twice, nothing is lost; once nothing is owned any more (the cell dropped or emptied by take,
+   no `set` pending) every payload made has been dropped exactly once. *)
+Theorem C04_payload_accounting : forall ops : list oop, N.of_nat (length ops) < ONCE_BOUND ->
+  N.of_nat (o_drops (orun ops)) + OnceDrops.owed (orun ops) = OnceDrops.made ow0 ops.
+Proof. exact OnceDrops.once_payload_accounting. Qed.
+Theorem C04_all_dropped_once : forall ops : list oop, N.of_nat (length ops) < ONCE_BOUND ->
+  OnceDrops.owed (orun ops) = 0 -> N.of_nat (o_drops (orun ops)) = OnceDrops.made ow0 ops.
+Proof. exact OnceDrops.once_all_dropped. Qed.
+Example C04_drops_nonvacuous :
+  let ops := [OStartInit (IKSet 5); OStartInit (IKSet 6); OPoll 0 0; OPoll 1 0; OStartInit (IKSet 7); ODropFut 0; ODropFut 1; ODropFut 2;
+              OTake; OStartInit IKInit; OResolve 3 (OOk 8); OPoll 3 0; OStartInit (IKSet 9); OPoll 4 0; ODropFut 3; ODropFut 4; ODropCell] in
+  OnceDrops.made ow0 ops = 5 /\ o_drops (orun ops) = 5%nat /\ OnceDrops.owed (orun ops) = 0.
+Proof. exact OnceDrops.once_drops_example. Qed.
+
 Print Assumptions C04_once.
 Print Assumptions C04_excl_sched.
 Print Assumptions C04_hb_view.
 Print Assumptions C04_value_visible.
 Print Assumptions C04_no_error.
+Print Assumptions C04_payload_accounting.
+Print Assumptions C04_all_dropped_once.
